@@ -35,20 +35,28 @@ def angle(k, shift):
     return k * math.pi / 2 + shift
 
 
-def gate_of(tree, row, cms, shift=0.0):
+def gate_of(tree, row, cms, shift=0.0, via_replace=False):
     """the specification tree built with the library's constructors"""
     from orquestra.quantum.circuits import builtin_gate_by_name
     from orquestra.quantum.circuits._gates import ControlledGate, Dagger, Exponential, Power
 
     if tree["k"] == "base":
-        if tree["custom"]:
+        if tree["custom"] and tree["np"] == 0:
             return cc.custom_def(tree["name"], cms[tree["name"]])()
+        if tree["custom"]:
+            # a parametric custom gate is always built at the all-zero point (where it is the identity, hence self-adjoint)
+            # and re-parametrised: the way an ansatz is initialised and then updated
+            from .C07 import param_custom_def
+
+            kk = row if row else tree["kk"]
+            return param_custom_def()(*[0.0] * tree["np"]).replace_params(tuple(angle(kk[j], shift * (j + 1)) for j in range(tree["np"])))
         g = builtin_gate_by_name(tree["name"])
         if tree["np"] > 0:
             kk = row if row else tree["kk"]
-            g = g(*[angle(kk[j], shift * (j + 1)) for j in range(tree["np"])])
+            ps = [angle(kk[j], shift * (j + 1)) for j in range(tree["np"])]
+            g = g(*[0.0] * tree["np"]).replace_params(tuple(ps)) if via_replace else g(*ps)
         return g
-    s = gate_of(tree["a"], row, cms, shift)
+    s = gate_of(tree["a"], row, cms, shift, via_replace)
     if tree["k"] == "ctrl":
         return ControlledGate(s, tree["n"])
     if tree["k"] == "dag":
@@ -58,10 +66,10 @@ def gate_of(tree, row, cms, shift=0.0):
     return Power(s, expo(tree["e"]))
 
 
-def circuit_of(steps, n, cms, shift=0.0):
+def circuit_of(steps, n, cms, shift=0.0, via_replace=False):
     from orquestra.quantum.circuits import Circuit
 
-    return Circuit([gate_of(s["tree"], s["row"], cms, shift)(*s["qs"]) for s in steps], n_qubits=n)
+    return Circuit([gate_of(s["tree"], s["row"], cms, shift, via_replace)(*s["qs"]) for s in steps], n_qubits=n)
 
 
 def proj_gate(g):
@@ -242,6 +250,15 @@ def check_case(ctx, c):
                 out.append(("inverse:double", "%s.inverse() does not act as the original" % desc))
             if not c["frac"] and not close(R, S, 1e-8):
                 out.append(("inverse:spec", "%s: matrix differs from the specification's exact matrix" % desc))
+        # the same circuit with every parametric gate built at the all-zero point and re-parametrised afterwards
+        if not c["frac"] and any('"np": 0' not in json.dumps(s_["tree"]) for s_ in c["pre"]):
+            try:
+                pre_b = circuit_of(c["pre"], c["pren"], cms, via_replace=True)
+                inv_b = pre_b.inverse()
+                if not close(unitary(inv_b), unitary(pre_b).conj().T, 1e-8) or not close(unitary(pre_b + inv_b), np.eye(2 ** c["pren"]), 1e-8):
+                    out.append(("inverse:reparametrised", "%s with its parametric gates built at angle 0 and re-parametrised (replace_params): the inverse is not the conjugate transpose / circuit + inverse is not the identity" % desc))
+            except Exception as ex:
+                out.append(("inverse:reparametrised-raises", "%s with re-parametrised gates: %s: %s" % (desc, type(ex).__name__, str(ex)[:150])))
     elif op == "controlled":
         k = c["a"][0]
         w = max(n_real, n_spec, c["pren"] + 1)
